@@ -3,6 +3,9 @@
 checks say about them at the current /repo HEAD (applied to a throw-away copy of the sources; /repo is not touched)."""
 import glob, json, os, shutil, subprocess, sys, tempfile
 
+ROUND = next((a.split("=")[1] for a in sys.argv[1:] if a.startswith("--round=")), "")  # "" = round 1 naming (Cxx-nK), else Cxx-rN-nK
+TAG = f"r{ROUND}-" if ROUND else ""
+
 def sh(cmd, cwd=None):
     r = subprocess.run(cmd, shell=True, cwd=cwd, capture_output=True, text=True)
     return r.returncode, r.stdout + r.stderr
@@ -20,7 +23,7 @@ for d in sorted(glob.glob("/tmp/seed/C[0-9][0-9]")):
         for sub in ("a816", "script", "tests"):
             shutil.copytree(f"{base}/{sub}", f"{t}/{sub}")
         rc, _ = sh(f"patch -s -p1 < {diff}", cwd=t)
-        out = f"/verif/neutral/{prop}-n{k}"
+        out = f"/verif/neutral/{prop}-{TAG}n{k}"
         os.makedirs(out, exist_ok=True)
         shutil.copy(diff, f"{out}/patch.diff")
         if os.path.exists(f"{d}/neutral/variant{k}_demo.py"):
@@ -43,7 +46,7 @@ for d in sorted(glob.glob("/tmp/seed/C[0-9][0-9]")):
         json.dump({"property": prop, "variant": k, "kind": meta.get("kind"), "summary": meta.get("summary"), "files": meta.get("files"),
                    "source": "fresh sub-agent given only the property text and a scratch worktree, asked for a behaviour-preserving edit with a broad demonstration",
                    "evaluated_at_repo_head": head, "result": res}, open(f"{out}/meta.json", "w"), indent=1)
-        print(f"{prop}-n{k}", res.get("tests_with_patch", "no-apply")[:12], "FALSE-ALARMS" if res.get("false_alarms") else "", "analysis-errors:" + ",".join(res.get("analysis_errors", {})) if res.get("analysis_errors") else "", flush=True)
+        print(f"{prop}-{TAG}n{k}", res.get("tests_with_patch", "no-apply")[:12], "FALSE-ALARMS" if res.get("false_alarms") else "", "analysis-errors:" + ",".join(res.get("analysis_errors", {})) if res.get("analysis_errors") else "", flush=True)
         shutil.rmtree(t)
 shutil.rmtree(base)
 print(f"variants={tot} with_false_alarm={fa} with_analysis_error={ae}")
